@@ -394,14 +394,14 @@ class ProtobufReader(Converter):
         problem = model.scheduling.SchedulingProblem(
             name=problem_name, environment=environment
         )
-        for v in msg.scheduling_extension.variables:
-            var = self.convert(v, problem)
-            problem.add_variable(var.name, var.type)
-
         for t in msg.types:
             problem._add_user_type(self.convert(t, problem))
         for obj in msg.objects:
             problem.add_object(self.convert(obj, problem))
+        for v in msg.scheduling_extension.variables:
+            var = self.convert(v, problem)
+            problem.add_variable(var.name, var.type)
+
         for f in msg.fluents:
             problem.add_fluent(
                 self.convert(f, problem),
